@@ -92,7 +92,7 @@ def _peek_one(model, v):
   if isinstance(v, (list, tuple)):
     return [_peek_one(model, e) for e in v]
   if isinstance(v, float):
-    return v if v == v and abs(v) != float('inf') else repr(v)
+    return v if v == v and abs(v) != float('inf') else {'__float__': repr(v)}
   if isinstance(v, (int, bool, str)) or v is None:
     return v
   return repr(v)
